@@ -156,6 +156,14 @@ def _validate_dict_match(
 
         if target_key in compare_as_map:
             map_keys = compare_as_map[target_key]
+            if compare_value is not None and not (
+                isinstance(compare_value, (list, tuple))
+                and all(isinstance(item, dict) for item in compare_value)
+            ):
+                return ResourceMatch(
+                    match=False,
+                    differences=[f"'{target_key}'", "<expected an array of objects>"],
+                )
             key_match = validate_match(
                 target=_list_to_object(target[target_key], map_keys),
                 actual=_list_to_object(compare_value, map_keys),
